@@ -8,8 +8,8 @@ REG = {
         'datagrams, each delivered alone and followed by a quiet period, with debug logging switched on. TLC requires that a malformed datagram never reaches a request or response handler '
         'and is answered by nothing but a Reset or an error response, and that after every sequence a well-formed canary request is answered 2.05 with the right payload. A crash, abort, '
         'sanitizer report or an endpoint that does not become quiet fails the run it happened in (the driver restarts after it).',
-   note='Memory safety / undefined behaviour are observed (ASan, UBSan), not decided by the specification. UDP only: stream segmentation incl. malformed messages is C05; the WebSocket '
-        'HTTP/frame reader and OSCORE-protected hostile input are not covered.'),
+   note='Memory safety / undefined behaviour are observed (ASan, UBSan), not decided by the specification. Datagrams through drv_hostile; TCP and WebSocket streams (malformed messages, odd frames, hostile handshakes, random bytes; server and client '
+        'sessions) through the stream catalogue shared with C05. OSCORE-protected hostile input is C14\'s tamper sweep; TLS records are not generated.'),
  'C06': dict(module='msg', engine='msg', category='model_checking', design_ref='4/C06',
    technique='TLA+ spec Reliability (TLC closed model) + trace validation of the real client on a simulated lossy network',
    text='Closed model MC_Reliability (Reliability+Exchange with lossy/duplicating network and de-duplicating peer) is model-checked '
@@ -86,7 +86,7 @@ REG = {
         'various times, cleartext CoAP injected at the DTLS endpoint from a stranger and from the client address, loss of each early datagram. TLC requires: no request at the server handler '
         'and no response at the client handler unless the configuration matches; no CoAP header in clear on the wire; with a mismatch every queued Confirmable request is reported by exactly '
         'one NACK and not only at context teardown; with a match and no disturbance the queued requests are delivered in order exactly once and answered exactly once.',
-   note='DTLS/PSK over UDP with GnuTLS only; TLS over TCP, PKI and SNI are not exercised. Under loss only safety is asserted (GnuTLS retransmission runs on the real clock).'),
+   note='DTLS/PSK over UDP with GnuTLS only; TLS over TCP and PKI are not exercised; per-server-name (SNI) keys are. Under loss only safety is asserted (GnuTLS retransmission runs on the real clock).'),
  'C20': dict(module='wkc', engine='wkc', category='model_checking', design_ref='4/C20',
    technique='TLA+ operators for RFC 6690 listing/filter/window (TLC) + TLC judging every window, listing and block-wise GET of the real server',
    text='Wkc.tla defines Link, Listing(table, filter) with exact / prefix-* / space-separated-token matching on href, rt, if, rel and attribute values, '
@@ -114,7 +114,7 @@ REG = {
         'tokens 0/8/13/20/269/300, ping/pong/empty/CSM/responses/malformed messages, release/abort, declared sizes above the maximum - cut at every 1-cut, sampled '
         '2- and 3-cut placements, one byte per read, empty reads, buffer-size reads and random cuts; TLC requires the delivered requests (token, payload), pongs '
         'and closure to equal Stream!Obs of the stream for every chunking.',
-   note='Covers TCP framing (TLS uses the same reader above the TLS layer; arrivals are signalled level- and edge-triggered) and WebSocket: the HTTP upgrade request and masked frames of 0..1500 bytes through the real accept / read path, every cut inside the frames, frames a CoAP endpoint does not take (unmasked, text, ping, close, continuation, oversize). Not covered: WSS, an invalid upgrade request, fragmented frames; '
+   note='Covers TCP framing (TLS uses the same reader above the TLS layer; arrivals are signalled level- and edge-triggered) and WebSocket, for server sessions (real accept path) and client sessions (real connect): upgrade request / 101 response in several valid spellings with header lines up to and beyond the line buffer, masked resp. unmasked frames of 0..1500 bytes, every cut inside handshake and frames, many small frames in one arrival, frames a CoAP endpoint does not take. Closed models MC_Stream, MC_StreamWS, MC_StreamHttp. Not covered: WSS, fragmented frames; invalid handshakes are judged for robustness only; '
         'declared sizes within 100 bytes of the configured maximum and TKL 15 inside a stream are not generated.'),
  'C14': dict(module='oscore', engine='oscore', category='model_checking', design_ref='4/C14',
    technique='TLA+ spec Oscore (RFC 8613 transcribed: option classes, plaintext, CBOR AAD, nonce, compressed COSE object) + TLC checking every field of real protections recorded at the AEAD seam; systematic tampering',
@@ -156,7 +156,7 @@ REG = {
         'without query, bursts of changes between I/O steps, three notification modes, counter wrap, idle periods beyond the session timeout and random '
         'histories. TLC requires every notification to go to a registered observer with its token and a strictly fresher Observe value, at most five NON in a '
         'row, nothing after deregistration, one entry per key, and the last state to reach every observer still registered when the run is quiet.',
-   note='Known finding KF_C11_RST_OLD_NOTIFICATION (RST for an older notification) is reported, not failed. Notifications larger than one block are left to C09.'),
+   note='Known finding KF_C11_RST_OLD_NOTIFICATION (RST for an older notification) is reported, not failed. Known finding KF_C11_PENDING_CHANGE_REPEATS_REGISTRATION_VALUE likewise. Notifications larger than one block are exercised (32-byte blocks, observer fetching the rest or not); the integrity of the blocks themselves is C09\'s subject.'),
  'C17': dict(module='persist', engine='persist', category='model_checking', design_ref='4/C17',
    technique='TLA+ spec Persist (update protocol with crash points, TLC) + kill at every intercepted stdio/rename call of the real code, restart, TLC judging files and restored state',
    text='MC_Persist model-checks the temp-file + rename update protocol with a crash between any two calls (file is always the complete old or new content; the in-place '
@@ -175,7 +175,7 @@ REG = {
         'allocated objects, a peer is always handled by its own session, one NEW and one DEL per session, no deletion while held or before the timeout, nothing idle overdue after an '
         'I/O step, and after teardown the allocator balance is zero with no unknown free.',
    note='Use-after-release inside libcoap itself is observed by ASan (a report fails the check); the spec sees it only when an event names a released object. Client sessions are '
-        'covered only through the ledger. The application is assumed to release its own references before freeing the context.'),
+        'covered only through the ledger; stream (TCP) server sessions, their disconnect and the closed-but-held state are covered. The application is assumed to release its own references before freeing the context.'),
  'C13': dict(module='lock', engine='lock', category='model_checking', design_ref='4/C13',
    technique='TLA+ spec Lock (TLC: mutual exclusion, no leak, no deadlock over all interleavings) + trace validation of real multi-threaded runs with link-time mutex taps',
    text='Lock.tla models the global lock protocol (API entry, kept and released callbacks with re-entry, the I/O wait) and TLC checks mutual exclusion, that nothing stays '
